@@ -84,6 +84,16 @@ Lemma sdp_errors_src :
   g_sdp_pdu_ids = e_sdp_pdu_ids.
 Proof. vm_compute. repeat split. Qed.
 
+(* on_channel_close in the source: pop unconditionally; reset the served state iff `channel is self.channel`;
+   the model's Disconnect step is that *)
+Lemma sdp_close_src :
+  g_sdp_close_shape = [1; 1; 1; 1; 2] /\
+  forall recs s b,
+    fst (s_step recs s (Disconnect b)) =
+    if is_chan s b then mkS None RNone (p_remove b (s_pending s))
+    else mkS (s_chan s) (s_cur s) (p_remove b (s_pending s)).
+Proof. split; [vm_compute; reflexivity|]. intros. simpl. destruct (is_chan s b); reflexivity. Qed.
+
 (* ------------------------------------------------------------------ AVDTP *)
 Definition a_frag_src (mtu label sig mt : Z) (payload : list Z) : fragres :=
   let F := g_avdtp_fragment_size mtu in
